@@ -43,6 +43,9 @@ type Replica struct {
 	SnapAtOp    []int    // len(Applied) at the moment of each snapshot
 	ResizeTo    []string
 	RevSets     int
+	LastCloneStatus string // last clone status this replica reported
+	StatusAtRW      string // LastCloneStatus at the moment it was told to become RW
+	ToldRW          int
 }
 
 var (
@@ -173,10 +176,7 @@ func (s *IOs) Unmap(off int64, length int64) (int, error) {
 	return 0, nil
 }
 
-func (s *IOs) Close() error {
-	s.M.Detached = true
-	return nil
-}
+func (s *IOs) Close() error { return nil }
 
 // HasApplied reports whether the replica applied operation id.
 func (m *Replica) HasApplied(id int) bool {
@@ -243,6 +243,10 @@ func (m *Replica) Action(action string, obj interface{}) error {
 	case "setreplicamode":
 		in := *(obj.(*map[string]string))
 		m.Mode = in["mode"]
+		if m.Mode == "RW" {
+			m.ToldRW++
+			m.StatusAtRW = m.LastCloneStatus
+		}
 	case "setcheckpoint":
 		in := *(obj.(*map[string]string))
 		m.Checkpoint = in["snapshotName"]
@@ -270,7 +274,10 @@ func (m *Replica) Info() (types.ReplicaInfo, error) {
 func (m *Replica) InfoNoFail() types.ReplicaInfo {
 	var ri types.ReplicaInfo
 	ri.State = m.State
-	ri.Chain = append([]string{}, m.Chain...)
+	// built element by element, as encoding/json grows a decoded slice (capacities 1,2,4,8 ...)
+	for _, s := range m.Chain {
+		ri.Chain = append(ri.Chain, s)
+	}
 	ri.Checkpoint = m.Checkpoint
 	ri.RevisionCounter = zzDecStr(m.RevCounter)
 	ri.RemainSnapshots = m.Remain
@@ -280,6 +287,7 @@ func (m *Replica) InfoNoFail() types.ReplicaInfo {
 	ri.Rebuilding = m.Rebuilding
 	if m.ClonePos < len(m.CloneScript) {
 		ri.CloneStatus = m.CloneScript[m.ClonePos]
+		m.LastCloneStatus = ri.CloneStatus
 		if m.ClonePos < len(m.CloneScript)-1 {
 			m.ClonePos++
 		}
